@@ -6,6 +6,7 @@
    PARTIAL: the bookkeeping is proved; "never after the state was left" is REFUTED for an expiry that is already in
    the queue (finding F8, witness below). *)
 From XSM Require Import Model.Macro Proofs.TimerP Proofs.LifeP.
+From XSM Require Import Model.TreeLib Gen.GenGeom Proofs.SkeletonBridge.
 
 (* a timer armed at entry is due exactly `delay` after that instant: named / computed delays are resolved at entry *)
 Theorem C08_armed_at_entry : forall x due k s,
@@ -44,6 +45,21 @@ Theorem C08_expiry_only_queues : forall eng ty p s,
   s_queue (deliver eng p s) = s_queue s \/ s_queue (deliver eng p s) = s_queue s ++ [{| e_type := ty; e_kind := EAfter; e_tag := 0 |}].
 Proof. exact expiry_queues_after. Qed.
 Print Assumptions C08_expiry_only_queues.
+
+(* TIE T for the ORDER OF EFFECTS: the effect skeletons of _exit_states and _enter_states are extracted from BOTH engines' copies
+   in the current source on every run (Gen/GenGeom.v; for _enter_states every path through the loop body must agree with one
+   total order of the five effects) and, interpreted over the model's own effect primitives, ARE the model's exit_states and
+   enter_one - so "a state's tasks are cancelled before its exit actions run", "exit actions before the state leaves the
+   configuration", "entry actions before the default descent", "where the state's tasks are scheduled relative to the
+   descent" are read off the source, per engine *)
+Theorem C08_exit_order_is_the_source_async : forall pr m l ev s,
+  run_exit_skeleton GenGeom.exit_skeleton_async Async pr m l ev s = exit_states Async pr m l ev s.
+Proof. exact exit_skeleton_async_bridge. Qed.
+Print Assumptions C08_exit_order_is_the_source_async.
+Theorem C08_exit_order_is_the_source_sync : forall eng pr m l ev s, eng <> Async ->
+  run_exit_skeleton GenGeom.exit_skeleton_sync eng pr m l ev s = exit_states eng pr m l ev s.
+Proof. exact exit_skeleton_sync_bridge. Qed.
+Print Assumptions C08_exit_order_is_the_source_sync.
 
 (* REFUTED at HEAD (finding F8): the queued AfterEvent is matched by type only.  State a (after 50 ms -> timeout);
    a slow action (80 ms) is processed while a is active, with LEAVE and BACK queued behind it: the expiry falls due
